@@ -7,6 +7,7 @@ terms is decided by cross-multiplication of polynomials over atom ids.  No paths
 enumerated and no solver is involved: this is value numbering plus polynomial algebra.
 """
 import ast
+import os
 from fractions import Fraction
 
 from .model import AnalysisError, body_nodoc, CLASS_OF
@@ -1996,6 +1997,12 @@ class Evaluator:
         if fname == "len" and len(pos) == 1 and not star and not kws and self.exact:
             # a comprehension without filter has as many elements as what it runs over
             pos = [self._loop_base(pos[0])] if (c.head_of(pos[0]) or ("",))[0] == "seqcomp" else pos
+        if fname == "isinstance" and len(pos) == 2 and not star and not kws and os.environ.get("VERIF_ISINSTANCE_SPLIT", "1") == "1":
+            # isinstance(x, (A, B)) is isinstance(x, A) or isinstance(x, B): one form for both spellings
+            h2 = c.head_of(pos[1])
+            if h2 and h2[0] == "tuple" and len(h2) == 1 and len(c.args_of(pos[1])) >= 2 and \
+                    not any((c.head_of(x) or ("",))[0] == "star" for x in c.args_of(pos[1])):
+                return self._bool("or", [self._func_call("isinstance", [pos[0], t_], [], {}, False) for t_ in c.args_of(pos[1])])
         if fname == "isinstance" and len(pos) == 2 and not star and not kws:
             # the order of the accepted types is immaterial: canonical order
             h2 = c.head_of(pos[1])
